@@ -157,6 +157,8 @@ def js_features(h, skind):
     """F120: global referenced by name before the handler reads/writes it; F20: string object index printed as a plain JS string;
     the C03 classes (raw jump pseudo-statements appear in the JavaScript as well)"""
     f = set(L.c03_classes(h[3:]))
+    if skind != "plain" and any(len(t) >= 2 and t[0] == "tell" for t in L.walk(h[3:])):
+        f.add("F131")
     if code_order_globals(h[3:]):
         f.add("F120")
     def kept(a):      # object indices the JavaScript keeps: numbers, locals, parameters
@@ -172,22 +174,25 @@ def js_features(h, skind):
         if len(t) >= 4 and t[0] == "set" and isinstance(t[1], list) and t[1][:2] == ["the", "field"] and not kept(t[1][3]):
             f.add("F20")
         if len(t) == 4 and t[0] == "put":
-            # the `.text` of a put target is inserted by a regular expression over the generated text
+            # the `.text` of a put target is inserted by a regular expression over the generated text: every `field(` occurrence
+            # in the target gets one, placed after the first `)` that follows it
             tgt = t[3]
             b = tgt
-            inner_fields = False
             while isinstance(b, list) and b and b[0] == "ch":
-                if any(isinstance(x, list) and x and x[0] == "fld" for c in (b[2], b[3]) for x in L.walk(c)):
-                    inner_fields = True
                 b = b[4]
+            def is_fieldish(x):
+                return isinstance(x, list) and x and (x[0] == "fld" or (x[0] == "the" and len(x) > 1 and x[1] == "field"))
+            others = [x for x in L.walk(tgt) if is_fieldish(x) and x is not b]
+            bad = bool(others)
             if isinstance(b, list) and b and b[0] == "fld":
                 idx = b[1]
-                simple = isinstance(idx, list) and idx and idx[0] in ("i", "f", "l", "p", "g", "r", "key", "mov") or idx == "me"
-                if isinstance(idx, list) and idx[:2] in (["the", "sys"],) or (isinstance(idx, list) and idx[0] == "the" and idx[1] == "special" and len(idx) == 3 and idx[2] < 6):
-                    simple = True
-                if not simple or inner_fields:
-                    f.add("F128")
-            elif inner_fields:
+                simple = idx == "me" or (isinstance(idx, list) and idx and (idx[0] in ("i", "f", "l", "p", "g", "r", "mov")
+                                                                            or (idx[0] == "key" and idx[1] not in ("date", "time"))
+                                                                            or idx[:2] == ["the", "sys"]
+                                                                            or (idx[0] == "the" and idx[1] == "special" and len(idx) == 3 and idx[2] < 6)))
+                if not simple:
+                    bad = True
+            if bad:
                 f.add("F128")
     return sorted(f)
 
@@ -233,6 +238,7 @@ PROBES = {
     "f127_set_framelabel": _p([["set", ["mov", "frameLabel"], ["i", 1]], ["call", "put", ["mov", "frameLabel"]]]),
     "f128_put_field_text_regex": _p([["put", "into", ["i", 1], ["fld", ["c", "random", ["i", 3]]]]]),
     "f129_global_receiver": _p([["set", ["g", "gObj"], ["i", 0]], ["mcall", ["g", "gObj"], "mReset"]]),
+    "f131_with_in_class_body": _p([["tell", ["c", "window", ["s", S("tour")]], ["call", "updateStage"]]], kind="props"),
     "f130_global_loop_variable": _p([["with", ["g", "gIdx"], ["i", 1], ["i", 3], "up", ["call", "put", ["g", "gIdx"]]]]),
     "f23_exit_directly_in_loop": _p([["while", ["b", "ne", ["l", "c"], ["i", 1]], ["call", "put", ["i", 2]], "exitrep"]]),
 }
